@@ -449,6 +449,7 @@ func (s *Sim) settleStep() {
 	}
 	s.afterSettle = s.afterSettle[:0]
 	s.assignCIDs()
+	s.judgeUpgrades()
 	s.stepInvariants()
 }
 
